@@ -3266,14 +3266,20 @@ def resolve_sequences(items):
             new_items.append(item)
             continue
 
-        values = [int(value, base=0) for value in item.values]
+        try:
+            values = [int(value, base=0) for value in item.values]
+        except ValueError as e:
+            raise AssemblerError(str(e), item.line)
 
         data = bytearray()
         for value in values:
             fmt = endianness + formats[item.name]
             if value < 0:
                 fmt = fmt.lower()
-            value = struct.pack(fmt, value)
+            try:
+                value = struct.pack(fmt, value)
+            except struct.error as e:
+                raise AssemblerError(str(e), item.line)
             data.extend(value)
         blob = Blob(item.line, bytes(data))
         new_items.append(blob)
